@@ -1,5 +1,6 @@
 (* C10 Membership changes are serialized, node-local half. *)
 From Coq Require Import List NArith.
+From RaftV Require AppendRefine ScanProofs.
 From RaftV Require Import Base Types Quorum Progress Tracker Storage Log Raft RawNode QuorumProofs RaftMono RaftRouting NodeProps PreVoteProofs LocalProofs FlowProofs LogProofs ConfProofs.
 Import ListNotations.
 Open Scope N_scope.
@@ -84,3 +85,23 @@ Theorem C10_joint_nonvacuous :
             In (1, 0%nat, (1, 7)) (snd p) /\ In (4, 0%nat, (1, 7)) (snd p).
 Proof. exact (conj SafetyJointEx.joint_needs_both_halves SafetyJointEx.safety_joint_nonvacuous). Qed.
 Print Assumptions C10_joint_nonvacuous.
+
+(* The scan behind that refusal is exact on the logical log: hasUnappliedConfChanges answers
+   false only if no entry in (applied, committed] is a configuration change (entries handed
+   to the application but not yet applied included), so a node that campaigns holds no
+   committed configuration change it has not applied. *)
+Theorem C10_unapplied_scan_exact : forall st r b,
+  AppendRefine.l_wf st (r_log r) -> has_unapplied_conf_changes st r = Ok b ->
+  (b = true -> exists i e, l_applied (r_log r) < i <= l_committed (r_log r) /\
+                           a_at (AppendRefine.lview st (r_log r)) i = Some e /\ is_cc_type (e_type e) = true) /\
+  (b = false -> forall i e, l_applied (r_log r) < i <= l_committed (r_log r) ->
+                            a_at (AppendRefine.lview st (r_log r)) i = Some e -> is_cc_type (e_type e) = false).
+Proof. exact ScanProofs.has_unapplied_conf_changes_spec. Qed.
+Print Assumptions C10_unapplied_scan_exact.
+
+Theorem C10_campaign_only_without_unapplied_change : forall st r t r',
+  AppendRefine.l_wf st (r_log r) -> hup st r t = Ok r' -> r' <> r ->
+  forall i e, l_applied (r_log r) < i <= l_committed (r_log r) ->
+              a_at (AppendRefine.lview st (r_log r)) i = Some e -> is_cc_type (e_type e) = false.
+Proof. exact ScanProofs.hup_campaigns_only_without_unapplied_cc. Qed.
+Print Assumptions C10_campaign_only_without_unapplied_change.
